@@ -20,6 +20,13 @@ Pat == /\ l <= Len(Trace) /\ Trace[l].ev = "Pat" /\ l' = l + 1
                             THEN {<<l, "rejected, but not with an UnacceptableOriginPatternError naming the string">>} ELSE {})
                     \cup (IF MustSelfMatch(c) /\ e.accepted /\ (~e.self \/ ~e.selfpf)
                             THEN {<<l, "an accepted wildcard-free pattern presented verbatim as Origin is not allowed">>} ELSE {})
+                    \* the same string listed next to valid entries (`*`, another origin), before or after them
+                    \cup (IF \E i \in DOMAIN e.ctx : Judged(c) /\ Valid(c) /\ ~e.ctx[i].accepted
+                            THEN {<<l, "a pattern of the documented form was rejected when listed next to valid entries">>} ELSE {})
+                    \cup (IF \E i \in DOMAIN e.ctx : Judged(c) /\ ~Valid(c) /\ e.ctx[i].accepted
+                            THEN {<<l, "a string carrying a documented defect was accepted when listed next to valid entries">>} ELSE {})
+                    \cup (IF \E i \in DOMAIN e.ctx : Judged(c) /\ ~Valid(c) /\ ~e.ctx[i].accepted /\ ~e.ctx[i].named
+                            THEN {<<l, "rejected next to valid entries, but no UnacceptableOriginPatternError names the string">>} ELSE {})
                     \cup bad
           /\ stats' = [stats EXCEPT !.valid = @ + (IF Judged(c) /\ Valid(c) THEN 1 ELSE 0),
                                     !.invalid = @ + (IF Judged(c) /\ ~Valid(c) THEN 1 ELSE 0),
